@@ -49,6 +49,12 @@ class Finding:
             return False
         if not re.search(self.obligation, obligation_name):
             return False
+        if self.where.startswith("pred:"):
+            from props.finding_preds import PREDS
+            try:
+                return bool(PREDS[self.where[5:]](inputs))
+            except Exception:
+                return False
         if self.where:
             try:
                 return bool(eval(self.where, {"__builtins__": {"abs": abs, "len": len, "min": min, "max": max,
@@ -239,9 +245,13 @@ class Run:
     def _report_violation(self, obligation, scenario, params, inputs, reproduced, detail=None, solver=None):
         for f in self.findings:
             if f.matches(self.pid, obligation, inputs):
+                if not any(k == f.key for k, _ in self.known_hits):
+                    print(f"KNOWN-FINDING: property={self.pid} {f.key}: {f.what} [first witness: {obligation}]")
+                    sys.stdout.flush()
                 if (f.key, obligation) not in self.known_hits:
                     self.known_hits.append((f.key, obligation))
-                    print(f"KNOWN-FINDING: property={self.pid} {f.what} [{obligation}]")
+                if solver is not None:
+                    self.known_refuted = getattr(self, "known_refuted", 0) + 1
                 return
         lab = obligation.split("/")[0]
         self._per_label = getattr(self, "_per_label", {})
@@ -326,7 +336,8 @@ class Run:
             self.discharge()
         self.judge()
         self.run_fallbacks()
-        obligations = sum(1 for r in self.results if not r.want_sat)
+        known_refuted = getattr(self, "known_refuted", 0)
+        obligations = sum(1 for r in self.results if not r.want_sat) - known_refuted
         und = len(self.undecided)
         unreplaced = [row for row in self.fallback_rows if not row.get("ran")]
         exit_code = 0
@@ -379,7 +390,9 @@ class Run:
             "rule": rule or "one evaluation per discharged obligation instance (distinct by obligation name) plus one per "
                             "native run of a bounded/exhaustive check (distinct by input hash)",
             "samples": samples,
-            "known_findings": [{"key": k, "obligation": o} for k, o in self.known_hits],
+            "known_findings": [{"key": k, "obligation": o} for k, o in self.known_hits][:40],
+            "known_finding_witnesses": len(self.known_hits),
+            "obligations_refuted_by_listed_findings": known_refuted,
             "rewrite_hits": {k: v for k, v in (self.pkg.hits.items() if self.pkg else [])},
             "callee_stubs": sorted(self.stubs_used),
             "callees_inlined": sorted(self.inlined),
@@ -391,8 +404,10 @@ class Run:
         ev = {"property_id": self.pid, "tier": self.tier, "seed": self.seed, "level": level, "coverage": cov,
               "assumptions": self.assumptions + self.trusted, "wall_s": round(time.time() - self.t0, 2),
               "violations": len(self.violations)}
-        os.makedirs(os.path.join(VERIF, "evidence"), exist_ok=True)
-        with open(os.path.join(VERIF, "evidence", f"{self.pid}.json"), "w") as f:
+        # runs against a scratch copy of the repository (self-tests) must not overwrite the evidence of /repo
+        evdir = "evidence" if os.path.abspath(os.environ.get("REPO_ROOT", "/repo")) == "/repo" else "evidence_scratch"
+        os.makedirs(os.path.join(VERIF, evdir), exist_ok=True)
+        with open(os.path.join(VERIF, evdir, f"{self.pid}.json"), "w") as f:
             json.dump(ev, f, indent=1, default=str)
         tag = {0: "HELD", 1: "VIOLATED", 2: "UNDECIDED", 3: "CHECKER-ERROR"}[exit_code]
         print(f"{self.pid} {tag}: obligations={obligations} discharged={self.discharged} undecided={und} "
